@@ -177,7 +177,21 @@ pub fn check(c: &Case) -> Verdict {
     if let Some(k) = entry_module {
         aux[3] = placed[k].base + 0x40;
     }
-    let opts = DumpOpts { blamed: pid, user_mappings: users.clone(), direct_auxv: if entry_module.is_some() { Some(aux) } else { None }, ..Default::default() };
+    // without a synthetic entry module: the kernel's auxv alone, or caller-supplied TRUE values of which
+    // any subset is left zero ("unset: look it up") - the outcome must be the same
+    let hh = fp_json(c);
+    let partial: Option<[u64; 4]> = if entry_module.is_none() && (hh >> 8) % 3 != 0 {
+        let mut a = aux;
+        for (i, v) in a.iter_mut().enumerate() {
+            if (hh >> (12 + i)) & 1 == 1 {
+                *v = 0;
+            }
+        }
+        Some(a)
+    } else {
+        None
+    };
+    let opts = DumpOpts { blamed: pid, user_mappings: users.clone(), direct_auxv: if entry_module.is_some() { Some(aux) } else { partial }, ..Default::default() };
     let maps = parse_maps(&t.maps_text().unwrap_or_default());
     let mut w = make_writer(pid, &opts);
     // a third of the cases: the image judged is the second (or the retry after a failed first) request of
@@ -278,6 +292,9 @@ pub fn check(c: &Case) -> Verdict {
         }
         classes.push("entry-in-synthetic-module".into());
     } else {
+        if let Some(p) = partial {
+            classes.push(format!("caller-supplied-auxv-with-{}-of-4-values-unset", p.iter().filter(|v| **v == 0).count()));
+        }
         // kernel auxv: the target's own executable holds the entry point
         let entry = aux[3];
         if let Some(first) = target_mods.first() {
@@ -350,7 +367,7 @@ pub fn run(ctx: &mut LaneCtx) {
         SubSpec {
             name: "live-modules",
             cases: (1_440, 25_000),
-            rule: "1..6 synthetic ELF images per target (ELF kit: with/without build-id note via PT_NOTE or section, id lengths 0..64 incl. all-zero, with/without SONAME via PT_DYNAMIC/SHT_DYNAMIC, with/without section table, 64/32 bit, LE/BE) in files named with spaces / non-ASCII (also characters outside the Basic Multilingual Plane) / .so.N versions, mapped loader-style in 1..4 parts of differing permissions with optional PROT_NONE gap, or 'APK style' from a non-zero offset, some unlinked after mapping, some non-ELF; direct auxv entry address inside a synthetic module or kernel auxv; 0..3 user mappings containing / partially overlapping / disjoint; in a third of the cases the judged image is the second request (or the retry after a failed one) of the same writer; oracle in assumptions; non-trivial = >=2 images with different feature sets or a user mapping that suppresses a module; distinct = hash of case",
+            rule: "1..6 synthetic ELF images per target (ELF kit: with/without build-id note via PT_NOTE or section, id lengths 0..64 incl. all-zero, with/without SONAME via PT_DYNAMIC/SHT_DYNAMIC, with/without section table, 64/32 bit, LE/BE) in files named with spaces / non-ASCII (also characters outside the Basic Multilingual Plane) / .so.N versions, mapped loader-style in 1..4 parts of differing permissions with optional PROT_NONE gap, or 'APK style' from a non-zero offset, some unlinked after mapping, some non-ELF; direct auxv entry address inside a synthetic module, kernel auxv, or caller-supplied true values of which any subset is left zero (unset); 0..3 user mappings containing / partially overlapping / disjoint; in a third of the cases the judged image is the second request (or the retry after a failed one) of the same writer; oracle in assumptions; non-trivial = >=2 images with different feature sets or a user mapping that suppresses a module; distinct = hash of case",
             strategy: case_strategy().boxed(),
             max_shrink_iters: 150,
             log_current: true,
